@@ -50,7 +50,7 @@ D_LEAK = ("a hostile LLM output at a message position is data: the content neith
 # hostile corpus
 # =============================================================================================
 BLANKS = ["", " ", "   ", "\n", "\n\n", " \t \n ", "\r\n", "\t", "\n \n\t\n"]
-TEMPLATES = ["{{ 7*7 }}", "  \"{{ 7*7 }}\"", "{{", "}}", "{% for %}", "{% for x in y %}", "{% raw %}", "{# c #}", "{{ secret }}",
+TEMPLATES = ["(remove last message)", "{{ 7*7 }}", "  \"{{ 7*7 }}\"", "{{", "}}", "{% for %}", "{% for x in y %}", "{% raw %}", "{# c #}", "{{ secret }}",
              "$secret", "${secret}", "  \"$secret and {{ secret }}\"", "$user_message", "${", "$", "$$", "$1",
              "{{ ''.__class__.__mro__ }}", "{{ config }}", "%s %d {0} {} %(x)s", "{% if secret %}{{ secret }}{% endif %}",
              "bot {{ 7*7 }}", "  {{ secret }}\nbot {{ secret }}\n  \"{{ secret }} {{ 7*7 }}\"", "\"{% include 'x' %}\"",
@@ -572,7 +572,7 @@ def _skip(mode, kind, tier="thorough"):
 # =============================================================================================
 # scenario families
 # =============================================================================================
-ALWAYS = BLANKS + TEMPLATES[:12]
+ALWAYS = BLANKS + TEMPLATES[:13]
 QUICK_SIZES = dict(standard=(38, 12), single_call=(70, 24), general=(70, 24), passthrough=(50, 16), passthrough_dialog=(22, 8),
                    value=(32, 10), multi_step=(24, 8), self_check=(16, 6))
 # kinds of LLM call that get a hostile output in the quick tier (None: all); the other calls of these modes run the same code as `standard`
@@ -670,6 +670,24 @@ def _literal_family(rng, tier, mode):
                 break
         if bad is None and len(res) < 2:
             rec.fail(G_CLAUSE, where, "conversation stopped after turn %d" % len(res))
+    if mode == "standard":
+        # the stored text of an earlier LLM message said again through a variable (`bot $last_bot_message` as the next step of turn 2)
+        for i, p1 in enumerate(PAYLOADS):
+            if tier != "thorough" and i % 3:
+                continue
+            s1, e1 = _wrap(mode, p1)
+            s2 = [INTENT_OK, "bot $last_bot_message"]
+            rec.count((p1, "bot $last_bot_message"))
+            where = "mode=%s; LLM message text turn 1: %s; next step of turn 2: `bot $last_bot_message` (LLM outputs %s / %s); user messages %r" % (
+                mode, _short(p1), [_short(x, 80) for x in s1], s2, USER_MSGS)
+            res = _converse(mode, [s1, s2], 0)
+            for (turn, st, out), exp in zip(res, (e1, p1)):
+                if st != "ok":
+                    rec.fail(G_CLAUSE, where, _turn_text(turn, st, out))
+                    break
+                if out.get("role") != "assistant" or out.get("content") != exp:
+                    rec.fail(D_EXACT, where, "turn %d: expected content %s, got %s" % (turn + 1, _short(exp), _short(out)))
+                    break
     return rec.record()
 
 
